@@ -1,6 +1,6 @@
 (* Extract/Ex_file.v — extraction of Model/File.v for the `file` runner (ExtrOcamlBasic only). *)
 From Coq Require Import Extraction ExtrOcamlBasic.
 From Coq Require Import ZArith QArith List.
-From PV Require Import Base.QUtil Model.File.
+From PV Require Import Base.QUtil Model.File Model.Scan Model.ScanGen.
 Extraction Language OCaml.
-Extraction "../ocaml/file/model.ml" Qred rnd_he flog10 fmt_sig fmt_int wcol rcol write_rows read_rows.
+Extraction "../ocaml/file/model.ml" Qred rnd_he flog10 fmt_sig fmt_int wcol rcol write_rows read_rows scan_file scan_blocks extrap_last.
